@@ -680,6 +680,8 @@ def Q7(vc):
         if tset is not None and (kind is None or tset.kind_dropped) and vc.nondet(2, 'set already forgotten?') == 1:
             local = None
         st['local0'], st['dropped0'] = local, (tset is not None and tset.kind_dropped)
+        # the watcher may forget the set only after it has once observed it ON (readiness achieved once)
+        st['was_on0'] = tset is not None and local is None
         streams = loc['streams']
         streams.clear()
         if vc.nondet(2, 'the object has a stream already?') == 1:
@@ -716,6 +718,13 @@ def Q7(vc):
         gated = tset is not None and kind is not None
         vc.ensure('gate_reference_kept', holds_set(loc['operator_indexed']))
         vc.ensure('gate_reference_kept', loc['operator_indexed'] is None or loc['operator_indexed'] is tset)
+        # ... and for EVERY stream (indexed kind or not): the set is forgotten only once it was observed ON;
+        # until then every worker must be handed the set, so that its handlers wait at the operator-wide gate
+        observed_on = Or(st['was_on0'], *[e[2] for e in it if e[0] == 'is_on'])
+        vc.ensure('gate_reference_kept', Or(tset is None, loc['operator_indexed'] is tset, observed_on))
+        for e in it:
+            if e[0] == 'spawn':
+                vc.ensure('gate_reference_kept', Or(tset is None, e[1][1]['operator_indexed'] is tset, observed_on))
         drops = [e for e in it if e[0] == 'drop_toggle']
         if ev is LISTED and gated:
             vc.ensure('listed_drops_kind_toggle', tset.kind_dropped)
